@@ -17,6 +17,11 @@
   from a Reference URI back to a part name (`path.Join("./"+URI)` cut at the first `?`), `encoding/xml`'s filling of `oxmlManifest`
   from the Object element, and the digest loop.
 
+  The functions take `fx : Bool`: `true` = the code with the repairs for the findings of this model (a part without content
+  type or extension is an error instead of an index panic; a part name the verifier's URI mapping would not find again is
+  refused; two kept members of one name are refused by the signer and any two members of one name by the verifier; every
+  member `keepFile` keeps must be named by a Reference), `false` = the code before them, kept for the gap / witness theorems.
+
   Core Lean only (linked into the native driver).
 -/
 import Relic.Model.XmlSig
@@ -189,13 +194,13 @@ def builtinCT (ext : Bytes) : Bytes :=
   if ext = xCer then ctCer else if ext = xPsdor then ctPsdor else if ext = xPsdsxs then ctPsdsxs
   else if ext = xRels then ctRels else []
 
-/-- the content type `makeSignature` writes into the Reference URI; `ext[0]` on an empty `ext` panics -/
-def refCType (c : CT) (name : Bytes) : Res Bytes :=
+/-- the content type `makeSignature` writes into the Reference URI; before the repair `ext[0]` on an empty `ext` panicked -/
+def refCType (fx : Bool) (c : CT) (name : Bytes) : Res Bytes :=
   let ct := ctFind c name
   if ct ≠ [] then .ok ct
   else
     match pathExt (pathBase name) with
-    | [] => .panic "vsix_(*mangler)_makeSignature"
+    | [] => if fx then .err "no-content-type" else .panic "vsix_(*mangler)_makeSignature"
     | d :: rest =>
       let ct := if d = 46 then builtinCT rest else []
       if ct ≠ [] then .ok ct else .ok defaultContentType
@@ -289,15 +294,17 @@ structure Mangled where
   deriving Repr
 
 /-- the callback of `mangleZip`, member by member -/
-def mangle (E : Env) : Pkg → Mangled → Res Mangled
+def mangle (fx : Bool) (E : Env) : Pkg → Mangled → Res Mangled
   | [], m => .ok m
   | p :: ps, m =>
-    if keepFile p.name then mangle E ps { m with kept := m.kept ++ [p], digests := mset m.digests p.name p.data }
+    if keepFile p.name then
+      if fx && m.digests.any (fun e => e.1 = p.name) then .err "duplicate"
+      else mangle fx E ps { m with kept := m.kept ++ [p], digests := mset m.digests p.name p.data }
     else if p.name = sContentTypes then
       match E.parseCT p.data with
       | none => .err "ctypes"
-      | some t => mangle E ps { m with ct := ctParse m.ct t.1 t.2 }
-    else mangle E ps m
+      | some t => mangle fx E ps { m with ct := ctParse m.ct t.1 t.2 }
+    else mangle fx E ps m
 
 /-! ### signer.go / oxmlsig.go: signing -/
 
@@ -335,12 +342,13 @@ structure Ref where
 def Ref.uri (r : Ref) : Bytes := 47 :: r.name ++ sQueryCT ++ r.ctype
 
 /-- the loop over the sorted names in `makeSignature` -/
-def mkRefs (c : CT) : SMap → Res (List Ref)
+def mkRefs (fx : Bool) (c : CT) : SMap → Res (List Ref)
   | [] => .ok []
   | e :: es =>
-    match refCType c e.1 with
+    match refCType fx c e.1 with
     | .ok ct =>
-      match mkRefs c es with
+      if fx && decide (uriPath (Ref.uri ⟨e.1, ct, e.2⟩) ≠ e.1) then .err "unreferencable" else
+      match mkRefs fx c es with
       | .ok rs => .ok (⟨e.1, ct, e.2⟩ :: rs)
       | .err x => .err x
       | .panic s => .panic s
@@ -387,11 +395,11 @@ def certNews (E : Env) (c : Cfg) : Pkg :=
 def addDigests (m : SMap) (news : Pkg) : SMap := news.foldl (fun m p => mset m p.name p.data) m
 
 /-- `sign` -/
-def sign (E : Env) (c : Cfg) (pkg : Pkg) : Res Signed :=
-  match mangle E pkg {} with
+def sign (fx : Bool) (E : Env) (c : Cfg) (pkg : Pkg) : Res Signed :=
+  match mangle fx E pkg {} with
   | .ok m =>
     let digests := addDigests m.digests (fixedNews E c)
-    match mkRefs m.ct (sortMap digests) with
+    match mkRefs fx m.ct (sortMap digests) with
     | .ok refs =>
       let obj := objectNode E c.hash c.time refs
       let ct' := newCtypes m.ct c.detach
@@ -529,18 +537,18 @@ structure Verdict where
   checked : List (Bytes × Bytes)
   deriving Repr, DecidableEq
 
-/-- `verify` on the name → member map -/
-def verifyF (E : Env) (files : Files) : Res Verdict :=
+/-- the walk over the archive after the reference loop (repair): a member `keepFile` keeps that no Reference names -/
+def uncovered (names : List Bytes) (checked : List (Bytes × Bytes)) : Bool :=
+  names.any fun n => keepFile n && !(checked.any fun x => x.1 = n)
+
+/-- `readSignature`, `xmldsig.Verify`, the reference loop of `checkManifest` -/
+def verifyCore (E : Env) (files : Files) : Res ((Bytes × List Bytes) × Opened × List (Bytes × Bytes)) :=
   match readSignature E files with
   | .ok sc =>
     match E.xopen sc.1 sc.2 with
     | .ok o =>
       match checkRefs E files (decodeManifest o.reference) with
-      | .ok checked =>
-        match o.ts with
-        | some e => .err e
-        | none =>
-          if (sc.2 ++ o.embedded).any (fun k => k = o.key) then .ok ⟨o.hash, o.key, checked⟩ else .err "noleaf"
+      | .ok checked => .ok (sc, o, checked)
       | .err x => .err x
       | .panic s => .panic s
       | .diverge => .diverge
@@ -551,8 +559,25 @@ def verifyF (E : Env) (files : Files) : Res Verdict :=
   | .panic s => .panic s
   | .diverge => .diverge
 
+/-- `verify` on the name → member map; `names` = the member names of the archive -/
+def verifyF (fx : Bool) (E : Env) (files : Files) (names : List Bytes) : Res Verdict :=
+  match verifyCore E files with
+  | .ok r =>
+    if fx && uncovered names r.2.2 then .err "uncovered" else
+    match r.2.1.ts with
+    | some e => .err e
+    | none =>
+      if (r.1.2 ++ r.2.1.embedded).any (fun k => k = r.2.1.key) then .ok ⟨r.2.1.hash, r.2.1.key, r.2.2⟩ else .err "noleaf"
+  | .err x => .err x
+  | .panic s => .panic s
+  | .diverge => .diverge
+
+/-- two members of one name -/
+def hasDup (pkg : Pkg) : Bool := !decide (pkg.map (·.name)).Nodup
+
 /-- `verify` -/
-def verify (E : Env) (pkg : Pkg) : Res Verdict := verifyF E (findLast pkg)
+def verify (fx : Bool) (E : Env) (pkg : Pkg) : Res Verdict :=
+  if fx && hasDup pkg then .err "duplicate" else verifyF fx E (findLast pkg) (pkg.map (·.name))
 
 /-! ### well-formedness conditions (decidable; evaluated by the driver for every op) -/
 
